@@ -117,6 +117,8 @@ def to_trace(res):
     for e in res["events"]:
         if e["ev"] == "call":
             evs.append({"ev": "call", "batch": [[b[0], b[1]] for b in e["batch"]], "multi": e["multi"]})
+        elif e["ev"] == "instance":
+            evs.append({"ev": "instance", "system": e["system"], "backend": e["backend"], "cls": e["cls"]})
         elif e["ev"] == "prep":
             evs.append({"ev": "prep", "outcome": e["outcome"]})
         elif e["ev"] == "answer":
@@ -247,6 +249,8 @@ def repo_test_traces(chk: Check, tier: str):
         for e in evs:
             if e["ev"] == "call":
                 tr.append({"ev": "call", "batch": [[b[0], qid[b[2]]] for b in e["batch"]], "multi": e["multi"]})
+            elif e["ev"] == "instance":
+                tr.append({"ev": "instance", "system": e["system"], "backend": e["backend"], "cls": e["cls"]})
             elif e["ev"] == "prep":
                 tr.append({"ev": "prep", "outcome": e["outcome"]})
             elif e["ev"] == "answer":
